@@ -83,6 +83,9 @@ def fields():
     f['generic'] = [
         ('attribute [ 0xff 0xc0 0x00 ]', True, {'attrs': {'generic': [255, 0xC0, '00']}}), ('attribute [ 0x100 0xc0 0x00 ]', False, None), ('attribute [ 0x63 0x1c0 0x00 ]', False, None),
         ('attribute [ 0x63 0xc0 0x0 ]', False, None), ('attribute [ 0x63 0xc0 0xzz ]', False, None), ('attribute [ 0x63 0xc0 ]', False, None),
+    ] + [
+        # a value crossing the one-byte attribute length, written with and without the extended-length flag
+        (f'attribute [ 0x63 {fl:#x} 0x{"ab" * n} ]', True, {'attrs': {'generic': [0x63, fl, 'ab' * n]}}) for n in (255, 256, 300, 1000) for fl in (0xC0, 0xD0, 0xE0)
     ]  # fmt: skip
     f['split'] = [('split /25', True, {'split': 25}), ('split /33', None, None), ('split /24', None, None), ('split /8', None, None), ('split banana', False, None)]
     f['keyword'] = [('frobnicate 12', False, None), ('med', False, None), ('', True, {})]
